@@ -1099,6 +1099,12 @@ static size_t ares_calc_query_timeout(const ares_query_t   *query,
    * retry from the last retry */
   rounds = (query->try_count / num_servers);
   if (rounds > 0) {
+    /* Limit the doubling so the shift can never reach the width of the type
+     * (undefined behaviour) for large "tries" values.  Anything beyond this
+     * is capped by maxtimeout or is effectively infinite anyway. */
+    if (rounds > 16) {
+      rounds = 16;
+    }
     timeplus <<= rounds;
   }
 
